@@ -5,6 +5,14 @@
                                      "gph <term>" "bh <term>|none"
    block07 <chain> <key=value ...> -> "bh07 <term>"  (pre-0.7 hash format of early mainnet / goerli blocks)
    state <pre|post> <block> | ... -> per block "root <term>" (C01's state model: commitment after each diff)
+   class c=<classspec>            -> "ch <term>"  (the Sierra class hash term; Keccak of the ABI answered by the harness)
+   accept from=<slot> to=<slot|-> chain=<hex> <block keys> -> "verdict accept|reject"
+        the EXTRACTED accept_ev decides, on the fields juno was given; its hash-term evaluation [ev] is answered
+        by the harness: the oracle prints "eval <term>" "end" and reads "val <hex>" (as often as accept_ev asks);
+        slot 0 is the empty chain; an accepted block's resulting chain state is stored in slot <to>
+   explain from=<slot> chain=<hex> <block keys> -> "checks su=b cls=b rm=b txh=b bh=b succ=b applicable=b roots=b casm=b" (the conjuncts of accept_ev)
+   vbh chain=<hex> <block keys>   -> "verdict accept|reject"  (verify_block_hash: receipts pairing, tx hashes, block hash)
+   reset                          -> forget all slots
    every reply ends with "end".
    txspec (fields separated by '|'):
      inv0|q|contract|selector|maxfee|calldata          inv1|q|sender|maxfee|nonce|calldata
@@ -14,19 +22,47 @@
      l1h|q|contract|selector|nonce|calldata            unv|has_sig   (hash not recomputed by juno: "hash none")
      V3 = tip|l1amount|l1price|l2amount|l2price|l1data("-" or amount:price)|paymaster|nonce_da|fee_da
    block keys: num root seq ts txc evc blob g=(l1wei,l1fri,dwei,dfri,l2wei,l2fri) vs ver=(a.b.c decimal) parent
+     present=0|1 (both price objects non-nil; default 1)  hash= oldroot= suhash= sunewroot= (declared values; default 0)
+     c=<key>~C (Cairo-0 definition)  |  c=<key>~S~<version bytes hex>~<external>~<l1handler>~<constructor>~<abi bytes hex>~<abi keccak>~<program>
+        entry points: sel:idx;sel:idx ("-" none)   program: a,b,c ("-" empty)   byte strings: hex, "-" empty
      t=<txspec>~<sig>~<hash>             (repeated, in order)
      r=<txhash>~<fee>~<msgs>~<revert>~<l1gas>~<l1datagas>~<events>   (repeated)
         msgs: from:to:payload;...  ("-" none; payload items '+' separated, "-" empty)   revert: "-" or keccak hex
         events: from:keys:data;... (keys/data '+' separated)
      dep= rep= non= dec= mig=  a:b;a:b     v0= a,b      sto= addr:k+v+k+v;addr:-  *)
-let rec show_term (t : term) : string = match t with
-  | TC z -> "(C " ^ hex_of_z z ^ ")"
-  | TPed (a, b) -> "(P " ^ show_term a ^ " " ^ show_term b ^ ")"
-  | TPos2 (a, b) -> "(S " ^ show_term a ^ " " ^ show_term b ^ ")"
-  | TPosN l -> "(SN " ^ String.concat " " (List.map show_term l) ^ ")"
-  | TPedN l -> "(PN " ^ String.concat " " (List.map show_term l) ^ ")"
-  | TAddLen (a, n) -> "(A " ^ show_term a ^ " " ^ string_of_int (int_of_nat n) ^ ")"
-  | TPath p -> "(B " ^ (if p = [] then "-" else String.concat "" (List.map (fun b -> if b then "1" else "0") p)) ^ ")"
+(* hex -> Z without intermediate bit lists (shadows common.ml's z_of_hex; same function) *)
+let z_of_hex (s : string) : z =
+  let neg = String.length s > 0 && s.[0] = '-' in
+  let start = if neg then 1 else 0 in
+  let acc = ref None in
+  for i = start to String.length s - 1 do
+    let v = hexval s.[i] in
+    List.iter (fun m ->
+      let b = v land m <> 0 in
+      acc := (match !acc with
+              | None -> if b then Some XH else None
+              | Some p -> Some (if b then XI p else XO p))) [8; 4; 2; 1]
+  done;
+  match !acc with None -> Z0 | Some p -> if neg then Zneg p else Zpos p
+
+let show_term (t : term) : string =
+  let buf = Buffer.create 4096 in
+  let rec go (t : term) : unit = match t with
+    | TC z -> Buffer.add_string buf "(C "; Buffer.add_string buf (hex_of_z z); Buffer.add_char buf ')'
+    | TPed (a, b) -> Buffer.add_string buf "(P "; go a; Buffer.add_char buf ' '; go b; Buffer.add_char buf ')'
+    | TPos2 (a, b) -> Buffer.add_string buf "(S "; go a; Buffer.add_char buf ' '; go b; Buffer.add_char buf ')'
+    | TPosN l -> Buffer.add_string buf "(SN "; list l; Buffer.add_char buf ')'
+    | TPedN l -> Buffer.add_string buf "(PN "; list l; Buffer.add_char buf ')'
+    | TAddLen (a, n) -> Buffer.add_string buf "(A "; go a; Buffer.add_char buf ' ';
+        Buffer.add_string buf (string_of_int (int_of_nat n)); Buffer.add_char buf ')'
+    | TPath p -> Buffer.add_string buf "(B ";
+        (if p = [] then Buffer.add_char buf '-' else List.iter (fun b -> Buffer.add_char buf (if b then '1' else '0')) p);
+        Buffer.add_char buf ')'
+  and list (l : term list) : unit = match l with
+    | [] -> ()
+    | [x] -> go x
+    | x :: r -> go x; Buffer.add_char buf ' '; list r in
+  go t; Buffer.contents buf
 
 let zl (sep : char) (s : string) : z list =
   if s = "-" || s = "" then [] else List.map z_of_hex (String.split_on_char sep s)
@@ -94,6 +130,24 @@ let parse_receipt (s : string) : receipt =
         r_l1gas = z_of_hex g1; r_l1datagas = z_of_hex g2; r_events = evs }
   | _ -> failwith ("r= " ^ s)
 
+let bytes_of_hex (s : string) : z list =
+  if s = "-" || s = "" then [] else
+  List.init (String.length s / 2) (fun i -> z_of_int (hexval s.[2*i] * 16 + hexval s.[2*i+1]))
+
+let parse_eps (s : string) : entry_point list =
+  List.map (fun (a, b) -> { ep_selector = a; ep_index = b }) (pairs s)
+
+(* a delivered class definition, and (for Sierra) the (ABI bytes, Keccak) pair the harness computed *)
+let parse_class (s : string) : (z * cdef) * (z list * z) option =
+  match String.split_on_char '~' s with
+  | [k; "C"] -> ((z_of_hex k, Cairo0), None)
+  | [k; "S"; ver; ext; l1h; ctor; abi; abik; prog] ->
+      let a = bytes_of_hex abi in
+      ((z_of_hex k, Sierra { sc_version = bytes_of_hex ver; sc_external = parse_eps ext; sc_l1handler = parse_eps l1h;
+                             sc_constructor = parse_eps ctor; sc_abi = a; sc_program = zs prog }),
+       Some (a, z_of_hex abik))
+  | _ -> failwith ("c= " ^ s)
+
 let parse_block (toks : string list) : block =
   let get k = let p = k ^ "=" in let n = String.length p in
     List.filter_map (fun t -> if String.length t >= n && String.sub t 0 n = p
@@ -108,12 +162,22 @@ let parse_block (toks : string list) : block =
   let hdr = { h_number = h "num"; h_state_root = TC (h "root"); h_sequencer = h "seq"; h_timestamp = h "ts";
               h_tx_count = h "txc"; h_event_count = h "evc"; h_blob = (one "blob" = "1");
               h_l1_gas_wei = g1; h_l1_gas_fri = g2; h_l1_data_wei = g3; h_l1_data_fri = g4; h_l2_wei = g5; h_l2_fri = g6;
+              h_prices_present = (opt "present" <> "0");
               h_version_str = h "vs"; h_ver = ver; h_parent = TC (h "parent") } in
   let d = { sd_deployed = pairs (opt "dep"); sd_replaced = pairs (opt "rep"); sd_nonces = pairs (opt "non");
             sd_storage = parse_storage (opt "sto"); sd_declared_v0 = zs (opt "v0");
             sd_declared_v1 = pairs (opt "dec"); sd_migrated = pairs (opt "mig") } in
+  let tz k = match get k with [v] -> TC (z_of_hex v) | [] -> TC Z0 | _ -> failwith ("key " ^ k) in
   { b_hdr = hdr; b_txs = List.map parse_txrec (get "t"); b_rcpts = List.map parse_receipt (get "r");
-    b_diff = d; b_hash = TC Z0; b_old_root = TC Z0 }
+    b_diff = d; b_hash = tz "hash"; b_old_root = tz "oldroot"; b_su_hash = tz "suhash"; b_su_new_root = tz "sunewroot";
+    b_classes = List.map (fun c -> fst (parse_class c)) (get "c") }
+
+(* the Keccak values the harness computed for the ABI texts of a request *)
+let kec_table (toks : string list) : (z list * z) list =
+  List.filter_map (fun t -> if String.length t > 2 && String.sub t 0 2 = "c=" then
+      snd (parse_class (String.sub t 2 (String.length t - 2))) else None) toks
+let kec_of (tbl : (z list * z) list) (bs : z list) : z =
+  try List.assoc bs tbl with Not_found -> failwith "keccak of an ABI text the harness did not send"
 
 (* C01-style state diff items: dep:a:c rep:a:c non:a:n sto:a:k:v dec:c:casm mig:c:casm *)
 let parse_state_block (items : string list) : diff =
@@ -130,6 +194,33 @@ let parse_state_block (items : string list) : diff =
     | ["mig"; c; h] -> mig := !mig @ [(z_of_hex c, z_of_hex h)]
     | _ -> failwith ("state item " ^ it)) items;
   { d_deployed = !dep; d_replaced = !rep; d_nonces = !non; d_storage = !sto; d_declared = !dec; d_migrated = !mig }
+
+(* ---------- the evaluation of hash terms handed to the extracted accept_ev: answered by the harness (juno's
+   Pedersen / Poseidon); canonical constants evaluate to themselves ---------- *)
+let memo : (string, term) Hashtbl.t = Hashtbl.create 4096
+let ev (t : term) : term =
+  match t with
+  | TC Z0 -> t
+  | TC (Zpos _ as z) when Z.ltb z felt_P -> t
+  | _ ->
+      let s = show_term t in
+      (match Hashtbl.find_opt memo s with
+       | Some v -> v
+       | None ->
+           if Hashtbl.length memo > 20000 then Hashtbl.reset memo;
+           print_endline ("eval " ^ s); print_endline "end"; flush stdout;
+           let l = input_line stdin in
+           let v = match words l with ["val"; h] -> TC (z_of_hex h) | _ -> failwith ("expected val, got " ^ l) in
+           Hashtbl.replace memo s v; v)
+
+let slots : (int, chain_state) Hashtbl.t = Hashtbl.create 16
+let slot (s : string) : chain_state =
+  let i = int_of_string s in
+  if i = 0 then empty_chain else
+  (try Hashtbl.find slots i with Not_found -> failwith ("empty slot " ^ s))
+let arg (k : string) (t : string) : string =
+  let p = k ^ "=" in let n = String.length p in
+  if String.length t >= n && String.sub t 0 n = p then String.sub t n (String.length t - n) else failwith ("expected " ^ p ^ " got " ^ t)
 
 let () =
   read_lines (fun line ->
@@ -158,6 +249,32 @@ let () =
         print_endline ("bh " ^ (match block_hash b with Some t -> show_term t | None -> "none"))
     | "block07" :: chain :: toks ->
         print_endline ("bh07 " ^ show_term (block_hash_pre07 (z_of_hex chain) (parse_block toks)))
+    | ["class"; c] ->
+        let c = String.sub c 2 (String.length c - 2) in
+        (match parse_class c with
+         | ((_, Sierra sc), Some kv) -> print_endline ("ch " ^ show_term (class_hash (kec_of [kv]) sc))
+         | _ -> failwith "class: not a Sierra definition")
+    | "accept" :: from :: dest :: chain :: toks ->
+        let b = parse_block toks in
+        let cs = slot (arg "from" from) in
+        (match accept_ev ev (kec_of (kec_table toks)) (z_of_hex (arg "chain" chain)) cs b with
+         | Some cs' ->
+             (match arg "to" dest with "-" -> () | d -> Hashtbl.replace slots (int_of_string d) cs');
+             print_endline "verdict accept"
+         | None -> print_endline "verdict reject")
+    | "explain" :: from :: chain :: toks ->
+        let b = parse_block toks in
+        let cs = slot (arg "from" from) in
+        let kec = kec_of (kec_table toks) and ch = z_of_hex (arg "chain" chain) in
+        let f x = if x then "1" else "0" in
+        print_endline (Printf.sprintf "checks su=%s cls=%s rm=%s txh=%s bh=%s succ=%s applicable=%s roots=%s casm=%s"
+          (f (su_ok ev b)) (f (classes_ok ev kec b)) (f (receipts_match ev b.b_txs b.b_rcpts)) (f (tx_hashes_ok ev ch b))
+          (f (block_hash_ok ev b)) (f (succession_ok ev cs b)) (f (diff_applicable cs.cs_state b.b_diff))
+          (f (roots_ok ev cs b)) (f (casm_ok cs b)))
+    | "vbh" :: chain :: toks ->
+        let b = parse_block toks in
+        print_endline (if verify_block_hash ev (z_of_hex (arg "chain" chain)) b then "verdict accept" else "verdict reject")
+    | ["reset"] -> Hashtbl.reset slots; Hashtbl.reset memo
     | "state" :: ver :: rest ->
         let blocks = List.map words (String.split_on_char '|' (String.concat " " rest)) in
         let ds = List.map parse_state_block blocks in
